@@ -4,6 +4,7 @@ import (
 	"context"
 	"fmt"
 	"math/rand"
+	"runtime"
 	"runtime/debug"
 
 	"github.com/cloudwego/gopkg/bufiox"
@@ -548,6 +549,54 @@ func c03DeepRecursion(c *drv.Ctx) {
 		}
 		cs.Count(true, "stack", which, pad, in)
 	})
+
+	// large heap inputs skipped again and again while another goroutine forces collections: the collector
+	// scans the stack of the recursing skipper, so an invalid pointer kept there (one past the end of the
+	// buffer, a stale address) is fatal ("found bad pointer in Go heap") - the process dies instead of
+	// Skip returning, and the driver reports the dead worker
+	if !c.Slow() {
+		gcSizes := []int{40000, 33001, 100003, 65537}
+		c.Stage("skip-during-gc", int64(len(gcSizes)), true, func(cs *drv.Case) {
+			size := gcSizes[cs.Idx]
+			// list<struct{1: i32}> filling about size bytes, then padded with a string field so that the
+			// length is exactly size (not a multiple of the allocator's span sizes)
+			n := (size - 5) / 8
+			b := ref.EncListBegin(nil, ref.STRUCT, uint32(n))
+			for i := 0; i < n; i++ {
+				b = append(b, ref.I32, 0, 1, byte(i>>24), byte(i>>16), byte(i>>8), byte(i), 0)
+			}
+			in := make([]byte, len(b)) // exact-size heap object
+			copy(in, b)
+			stop := make(chan struct{})
+			done := make(chan struct{})
+			go func() {
+				defer close(done)
+				for {
+					select {
+					case <-stop:
+						return
+					default:
+						runtime.GC()
+					}
+				}
+			}()
+			iters := int(cs.C.Pick(40000, 400000))
+			bad := 0
+			for i := 0; i < iters; i++ {
+				if k, err := thrift.Binary.Skip(in, thrift.LIST); err != nil || k != len(in) {
+					bad++
+				}
+			}
+			close(stop)
+			<-done
+			cs.Desc = M{"input_bytes": len(in), "skips": iters, "shape": "list<struct{i32}>"}
+			if bad > 0 {
+				cs.Fail("decoder-wrong-result", M{"entry": "Binary.Skip", "when": "during garbage collections"}, M{"wrong_results": bad, "of": iters, "input_bytes": len(in)})
+			}
+			cs.Count(true, "gc", size)
+			cs.C.Obs("skips during forced collections", int64(iters))
+		})
+	}
 
 	c.Stage("deep-recursion", 8, true, func(cs *drv.Case) {
 		old := debug.SetMaxStack(64 << 20)
